@@ -84,6 +84,10 @@ type Track struct {
 	// at sample index k (stts/ctts) or at chunk index k (stsc), 0-based.
 	SplitStts, SplitCtts, SplitStsc []int
 	ZeroCountStts                   bool // an stts entry with sample_count 0 in front of every run started by SplitStts
+	ZeroCountCtts                   bool // likewise for ctts and SplitCtts
+	// ShortPresentation > 0: the (last) edit presents only 1/ShortPresentation of the media, and tkhd.duration
+	// is the sum of the edits (the media itself is longer)
+	ShortPresentation int
 	StblOrder                       []string // order of the children after stsd; nil = default
 
 	TkhdVersion, MdhdVersion, ElstVersion byte
@@ -238,6 +242,10 @@ func (t *Track) computeTables() error {
 			if k := len(tb.Ctts); k > 0 && tb.Ctts[k-1].Offset == s.Cto && !cc[i] {
 				tb.Ctts[k-1].Count++
 			} else {
+				if t.ZeroCountCtts && cc[i] && i > 0 {
+					// an entry that covers no sample in front of the new run
+					tb.Ctts = append(tb.Ctts, CttsRun{0, s.Cto + 3})
+				}
 				tb.Ctts = append(tb.Ctts, CttsRun{1, s.Cto})
 			}
 		}
@@ -456,6 +464,14 @@ func (f *File) Build() error {
 			return fmt.Errorf("track %d: %w", t.ID, err)
 		}
 		t.TkhdDuration = ceilDiv(t.TotalDuration*uint64(f.MovieTimescale), uint64(t.Timescale))
+		if t.ShortPresentation > 1 && len(t.Elst) > 0 {
+			last := &t.Elst[len(t.Elst)-1]
+			last.SegmentDuration = t.TkhdDuration / uint64(t.ShortPresentation)
+			t.TkhdDuration = 0
+			for _, e := range t.Elst {
+				t.TkhdDuration += e.SegmentDuration
+			}
+		}
 		if t.TkhdDuration > f.MovieDuration {
 			f.MovieDuration = t.TkhdDuration
 		}
